@@ -367,8 +367,8 @@ pub fn harnesses() -> Vec<HarnessDef> {
   fn b7(t: bool) -> String {
     format!("observe_on, delay(1|2), delay_subscription(1|2), subscribe_on; scripts of <= {} symbolic items with gaps 0..2 and every terminal; hot and cold sources; executor run eagerly or late at every step; LocalPool(FIFO) and ANY-order executors (threads forms: hook FIFO and ANY)", if t { 3 } else { 2 })
   }
-  add("c07_move", vec!["C07", "C01"], "scheduler-moving operators (local forms): delivered sequence, prefix-on-error, never earlier than the delay", b7, Box::new(|t| c07_run(false, if t { 3 } else { 2 }, false)), 2_000_000, 40_000_000, true);
-  add("c07_move_threads", vec!["C07", "C01"], "scheduler-moving operators (_threads forms)", b7, Box::new(|t| c07_run(true, if t { 3 } else { 2 }, false)), 2_000_000, 40_000_000, true);
+  add("c07_move", vec!["C07"], "scheduler-moving operators (local forms): delivered sequence, prefix-on-error, never earlier than the delay", b7, Box::new(|t| c07_run(false, if t { 3 } else { 2 }, false)), 2_000_000, 40_000_000, true);
+  add("c07_move_threads", vec!["C07"], "scheduler-moving operators (_threads forms)", b7, Box::new(|t| c07_run(true, if t { 3 } else { 2 }, false)), 2_000_000, 40_000_000, true);
   add("c07_at_forms", vec!["C07", "C08"], "delay_at, delay_at_threads, delay_subscription_at, timer_at, interval_at: requested delay = time remaining until the instant (real clock, instants now-5s / now / now+10s / now+1000s, tolerance 2 s)", |_| "6 operators x 4 instants".to_string(), Box::new(|_| c07_at_forms()), 10_000, 10_000, false);
   add("c02_sched", vec!["C02"], "scheduler operators: unsubscribe()/guard drop at every point of the script and of the virtual-time line, then every executor order drained and the clock advanced past every deadline", b7, Box::new(|t| c07_run(false, if t { 3 } else { 2 }, true)), 2_000_000, 40_000_000, true);
   add("c02_sched_threads", vec!["C02"], "same for the _threads forms", b7, Box::new(|t| c07_run(true, if t { 3 } else { 2 }, true)), 2_000_000, 40_000_000, true);
